@@ -114,6 +114,9 @@ func (fr *Frame) callWithArgs(s *State, g *Term, call *ssa.CallCommon, ins ssa.I
 	}
 	if callee := call.StaticCallee(); callee != nil {
 		key := funcKey(callee)
+		if r, ok := fr.vocabularyCall(s, callee, args); ok {
+			return r
+		}
 		if m := lookupModel(key); m != nil {
 			return m.apply(fr, s, g, call, args, pos)
 		}
@@ -124,6 +127,9 @@ func (fr *Frame) callWithArgs(s *State, g *Term, call *ssa.CallCommon, ins ssa.I
 			}
 			if fc.Recursive > 0 {
 				return fr.applyRecursive(s, callee, fc, args)
+			}
+			if r, ok := fr.opaqueApp(fc, callee, args); ok {
+				return r
 			}
 			return fr.inlineCall(s, g, callee, args, nil, fc.Pure || fr.spec)
 		}
@@ -668,6 +674,86 @@ func (x *Exec) readSorts(fn *ssa.Function, seen map[*ssa.Function]bool, out map[
 			}
 		}
 	}
+}
+
+// vocabularyCall: the contract vocabulary (implies, iff, ite, forall, exists)
+// used inside a specification function body (i.e. reached through go/ssa
+// rather than through the contract expression evaluator).
+func (fr *Frame) vocabularyCall(s *State, callee *ssa.Function, args []*Term) (*Term, bool) {
+	x := fr.x
+	c := x.c
+	o := callee
+	if o.Origin() != nil {
+		o = o.Origin()
+	}
+	if o.Pkg == nil || !specialFuncs[o.Name()] || o.Signature.Recv() != nil {
+		return nil, false
+	}
+	if !x.P.ContractFilePos[o.Pkg.Pkg.Path()].IsValid() {
+		return nil, false
+	}
+	if pos := x.P.Fset.Position(o.Pos()); !strings.HasSuffix(pos.Filename, contractFileName) {
+		return nil, false
+	}
+	switch o.Name() {
+	case "implies":
+		return c.Implies(args[0], args[1]), true
+	case "iff":
+		return c.Eq(args[0], args[1]), true
+	case "ite":
+		return c.Ite(args[0], args[1], args[2]), true
+	case "forall", "exists":
+		ci := x.closures[args[0]]
+		if ci == nil || ci.fn.Blocks == nil {
+			cfail("%s in a specification function needs a function literal argument", o.Name())
+		}
+		var bvs []*Term
+		for _, p := range ci.fn.Params {
+			bvs = append(bvs, c.BVar(p.Name(), x.ti.sortOf(p.Type())))
+		}
+		body := fr.inlineCall(s.clone(), c.True(), ci.fn, bvs, ci.bindings, true)
+		if o.Name() == "forall" {
+			return c.Forall(bvs, body), true
+		}
+		return c.Exists(bvs, body), true
+	}
+	cfail("contract vocabulary function %s cannot be used inside a specification function body", o.Name())
+	return nil, false
+}
+
+// opaqueApp: an `opaque` pure function is an uninterpreted function of its
+// arguments unless the function being verified reveals it.
+func (fr *Frame) opaqueApp(fc *FuncContract, callee *ssa.Function, args []*Term) (*Term, bool) {
+	if !fc.Opaque {
+		return nil, false
+	}
+	name := lastDot(fc.Key)
+	// only the function being verified can reveal (a callee's or lemma's `reveal` is about its own proof)
+	top := fr
+	for top.parent != nil && !top.top {
+		top = top.parent
+	}
+	if top.contract != nil {
+		for _, r := range top.contract.Reveal {
+			if r == name {
+				return nil, false
+			}
+		}
+	}
+	x := fr.x
+	rt := resultType(callee.Signature)
+	if rt == nil {
+		cfail("opaque function %s has no result", fc.Key)
+	}
+	if _, isTup := rt.(*types.Tuple); isTup {
+		cfail("opaque function %s must have a single result", fc.Key)
+	}
+	sorts := map[string]bool{}
+	x.readSorts(callee, map[*ssa.Function]bool{}, sorts)
+	if len(sorts) > 0 {
+		cfail("opaque function %s reads memory; only arithmetic functions can be opaque", fc.Key)
+	}
+	return x.c.UF("opq_"+sanitize(shortKey(fc.Key)), x.ti.sortOf(rt), args...), true
 }
 
 // rootedAtLocal: the address is a field/element of a local variable of the function.
